@@ -3373,16 +3373,12 @@ let gray_scott_raises u_hat =
 (** val convection_cons_raises : z -> z list -> bool **)
 
 let convection_cons_raises d u_hat =
-  negb
-    ((||) ((||) false (Z.eqb (nth O u_hat Z0) (Zpos XH)))
-      (Z.eqb (nth O u_hat Z0) d))
+  negb (Z.eqb (nth O u_hat Z0) d)
 
 (** val convection_noncons_raises : z -> z list -> bool **)
 
 let convection_noncons_raises d u_hat =
-  negb
-    ((||) ((||) false (Z.eqb (nth O u_hat Z0) (Zpos XH)))
-      (Z.eqb (nth O u_hat Z0) d))
+  negb (Z.eqb (nth O u_hat Z0) d)
 
 (** val random_sine_raises : z -> bool -> bool -> bool -> bool **)
 
